@@ -269,6 +269,7 @@ class JobServerSemaphore:
             while self.__waitersCnt:
                 self.__tokens.append(os.read(self.__fds[0], 1))
                 self.__waitersCnt -= 1
+                self.__acquired += 1
                 self.__sem.release()
         except BlockingIOError:
             pass
@@ -287,8 +288,11 @@ class JobServerSemaphore:
                 asyncio.get_event_loop().add_reader(self.__fds[0],
                     JobServerSemaphore.jobavailableCallback, self)
             self.__waitersCnt += 1
+            # The slot is accounted by whoever grants it (callback or
+            # release). Otherwise a concurrent acquire() could take the
+            # implicit slot a second time before we are resumed.
             await self.__sem.acquire()
-            pass
+            return
         self.__acquired += 1
 
     async def __aenter__(self):
@@ -303,6 +307,7 @@ class JobServerSemaphore:
            self.__sem.release()
            if self.__waitersCnt == 0:
                asyncio.get_event_loop().remove_reader(self.__fds[0])
+           return # slot handed over to the waiter
         else:
             if not self.__recursive or self.__acquired > 1:
                 os.write(self.__fds[1], self.__tokens.pop())
